@@ -164,8 +164,40 @@ FrSdWhy(r) ==
        ELSE IF Closer(P, N, UnitNsOfRank(R), FracDigits(r.text)) THEN ""
        ELSE "lossy friendly output is off by more than one unit of the last printed digit"
 
+\* ---- the friendly parser on texts of the documented grammar ---------------------------------------
+\* jiff's parsed time total T (ns) against the text: |T| = floor(|text total|), i.e.
+\* 0 <= scaled - |T| * 10^fnd < 10^fnd
+FrTotalOk(p, T) ==
+  LET scale == BOf(Pow10(p.fnd))  txt == FrTimeScaled(p)  got == BMul(BAbs(T), scale) IN
+  BLe(got, txt) /\ BLt(BSub(txt, got), scale) /\ (T = BZero \/ (T.s < 0) = p.neg)
+FrParseWhy(r) ==
+  LET p == RdFriendly(r.text) IN
+  IF ~p.ok THEN "harness: generated friendly text is outside the reader's grammar"
+  ELSE IF r.span.st = "panic" \/ r.sd.st = "panic" THEN "the friendly parser panicked"
+  ELSE LET units == [y |-> BToInt(p.u[10]), mo |-> BToInt(p.u[9]), w |-> BToInt(p.u[8]), d |-> BToInt(p.u[7]), h |-> BToInt(p.u[6]),
+                     mi |-> p.u[5], s |-> p.u[4], ms |-> p.u[3], us |-> p.u[2], ns |-> p.u[1]]
+           fits == (\A k \in 6..10 : BFitsInt(p.u[k])) /\ SpanInLimits(units)
+           hasCal == \E k \in 7..10 : p.u[k] # BZero
+           g == r.span.p
+           spanWhy ==
+             IF ~fits THEN ""                               \* beyond the unit limits: may be refused, not checked further
+             ELSE IF r.span.st # "ok" THEN (IF p.frank >= 0 THEN "" ELSE "the friendly parser refuses a text of the documented grammar")
+             ELSE IF <<BOf(g.d), BOf(g.w), BOf(g.mo), BOf(g.y)>> # <<FrSign(p, p.u[7]), FrSign(p, p.u[8]), FrSign(p, p.u[9]), FrSign(p, p.u[10])>>
+                  THEN "friendly parse: a calendar unit differs from the text"
+             ELSE IF p.frank < 0 /\ <<g.ns, g.us, g.ms, g.s, g.mi, BOf(g.h)>> # <<FrSign(p, p.u[1]), FrSign(p, p.u[2]), FrSign(p, p.u[3]), FrSign(p, p.u[4]), FrSign(p, p.u[5]), FrSign(p, p.u[6])>>
+                  THEN "friendly parse: a time unit differs from the text"
+             ELSE IF ~FrTotalOk(p, LowNs(g, 5)) THEN "friendly parse: the time units do not add up to the text (fraction truncated toward zero)"
+             ELSE ""
+           sdWhy ==
+             IF hasCal THEN (IF r.sd.st = "err" THEN "" ELSE "parse_duration accepted calendar units")
+             ELSE IF (\E k \in 7..10 : TRUE) /\ r.sd.st # "ok" THEN ""      \* too large for 64-bit seconds, or a zero calendar unit: may be refused
+             ELSE IF ~FrTotalOk(p, BNanosOfApi(r.sd.p[1], r.sd.p[2])) THEN "friendly parse_duration: not the total of the text"
+             ELSE ""
+       IN IF spanWhy # "" THEN spanWhy ELSE sdWhy
+
 Why(r) ==
-  CASE r.op = "iso_span" -> IsoSpanWhy(r)
+  CASE r.op = "fr_parse" -> FrParseWhy(r)
+    [] r.op = "iso_span" -> IsoSpanWhy(r)
     [] r.op = "iso_sd"   -> IsoSdWhy(r)
     [] r.op = "fr_span"  -> FrSpanWhy(r)
     [] r.op = "fr_sd"    -> FrSdWhy(r)
